@@ -10,6 +10,7 @@ import sys
 sys.path.insert(0, "tools")
 import theories
 theories.prepare()
+theories.prepare_component_driver()
 PY
-(cd harness && cargo build --offline -q -p eqlogc -p rt-driver -p model-driver)
+(cd harness && cargo build --offline -q -p eqlogc -p rt-driver -p model-driver -p comp-driver)
 echo setup done
